@@ -110,7 +110,13 @@ def cover_check(F, cg, analyze_reach, row):
         return "analyzer function %s is not reachable from analyze()" % fn
     diag = row["diag"]
     found = False
-    for b in with_closures(F, f):
+    # the analyzer function with the crate's helper functions inlined (a check split out into a helper still counts)
+    fi = mir.inline_calls(F, f, want=e3._helper_policy("tx3_lang"), depth=2)
+    if any(x.endswith("analyzing::Error::" + diag) for x in fi.get("inlined", [])):
+        found = True
+    # closures created inside inlined helpers
+    extra_clos = [F.fns[st["rv"]["closure"]] for _, _, st in mir.stmts(fi) if st["rv"]["k"] == "agg" and st["rv"].get("closure") in F.fns]
+    for b in [fi] + with_closures(F, f) + extra_clos:
         for bi, t in mir.calls(b):
             if (t.get("callee") or "").endswith("analyzing::Error::" + diag):
                 found = True
